@@ -534,7 +534,34 @@ func forallBefore(f *chk.Fn, g *chk.Graph, rs *ast.RangeStmt, phi chk.Guard, sit
 			return false
 		}
 		st := g.FactSite(rhs)
-		return st.B != nil && g.Dominated(st, g.GExprNil(false, func(e ast.Expr) bool { return f.SameValue(e, rhs) }))
+		if st.B == nil {
+			return false
+		}
+		if g.Dominated(st, g.GExprNil(false, func(e ast.Expr) bool { return f.SameValue(e, rhs) })) {
+			return true
+		}
+		// ... or handed, in a test that decided the way here, to a function of this module that reads through it before
+		// anything else (the test has an outcome only when the pointer is not nil)
+		return g.Dominated(st, chk.GFunc(func(ft chk.Fact) bool {
+			found := false
+			ast.Inspect(ft.E, func(n ast.Node) bool {
+				c, isCall := n.(*ast.CallExpr)
+				if !isCall || found {
+					return !found
+				}
+				fo, _ := f.Callee(c).(*types.Func)
+				if fo == nil {
+					return true
+				}
+				for i, a := range c.Args {
+					if f.SameValue(a, rhs) && chk.DerefsParamFirst(f.Prog, fo, i) {
+						found = true
+					}
+				}
+				return true
+			})
+			return found
+		}))
 	}
 	ast.Inspect(rs.Body, func(n ast.Node) bool {
 		if as, ok := n.(*ast.AssignStmt); ok && len(as.Lhs) == len(as.Rhs) && as.Tok == token.ASSIGN {
@@ -3426,4 +3453,154 @@ func unconv(f *chk.Fn, e ast.Expr) ast.Expr {
 		}
 		e = c.Args[0]
 	}
+}
+
+// argRolesRule: the positional hand-over of same-typed values. At every call of a function of this module, in the tree
+// as written, an argument that carries the name of one of the callee's parameters (a variable, a field or a niladic /
+// one-argument function so named, first letter folded) is passed in that parameter's position whenever another
+// parameter of the identical type exists: two strings side by side are not told apart by the compiler, and a call
+// that hands the sharing key where the backend key is expected builds, runs every test that uses one value for both,
+// and records / compares the wrong key from then on.
+func argRolesRule(p *chk.Prog, r *chk.Report, floor int, pkgs ...string) {
+	x := r.Rule("ARG-ROLES", "A resolved", "in the tree as written, an argument named after a parameter of the called module function is passed in that parameter's position when another parameter of the same type exists (same-typed neighbours are not swapped)", floor)
+	q := p
+	if p.Written != nil {
+		q = p.Written
+	}
+	fold := func(s string) string {
+		s = strings.TrimPrefix(s, "get")
+		s = strings.TrimPrefix(s, "Get")
+		return strings.ToLower(s)
+	}
+	argName := func(e ast.Expr) string {
+		switch v := ast.Unparen(e).(type) {
+		case *ast.Ident:
+			return v.Name
+		case *ast.SelectorExpr:
+			return v.Sel.Name
+		case *ast.CallExpr:
+			if len(v.Args) > 1 {
+				return ""
+			}
+			switch fn := ast.Unparen(v.Fun).(type) {
+			case *ast.Ident:
+				return fn.Name
+			case *ast.SelectorExpr:
+				return fn.Sel.Name
+			}
+		}
+		return ""
+	}
+	for _, pk := range pkgs {
+		for _, f := range q.FuncsIn(pk) {
+			if f.Body == nil || strings.HasSuffix(q.Fset.Position(f.Body.Pos()).Filename, "_test.go") {
+				continue
+			}
+			seen := false
+			ast.Inspect(f.Body, func(nd ast.Node) bool {
+				c, ok := nd.(*ast.CallExpr)
+				if !ok || c.Ellipsis.IsValid() {
+					return true
+				}
+				fo, _ := f.Callee(c).(*types.Func)
+				if fo == nil || fo.Pkg() == nil || !strings.HasPrefix(fo.Pkg().Path(), chk.Module) {
+					return true
+				}
+				sig := fo.Type().(*types.Signature)
+				ps := sig.Params()
+				if sig.Variadic() || ps.Len() != len(c.Args) || ps.Len() < 2 {
+					return true
+				}
+				for i, a := range c.Args {
+					n := fold(argName(a))
+					if n == "" {
+						continue
+					}
+					own := fold(ps.At(i).Name())
+					for j := 0; j < ps.Len(); j++ {
+						if j == i || !types.Identical(ps.At(i).Type(), ps.At(j).Type()) || fold(ps.At(j).Name()) != n || ps.At(j).Name() == "_" {
+							continue
+						}
+						if !seen {
+							seen = true
+							r.Saw(f)
+						}
+						// the argument is named after parameter j: it must sit in position j, unless its own position
+						// carries the same name (both names fold alike)
+						x.CheckAt(f.Name()+":"+chk.ShortName(fo)+"#"+ps.At(j).Name(), q.Rel(a.Pos()), own == n, "",
+							"argument "+types.ExprString(a)+" is passed as parameter "+ps.At(i).Name()+" of "+chk.ShortName(fo)+", which has a parameter "+ps.At(j).Name()+" of the same type: the two values are exchanged at this call")
+					}
+					if own == n {
+						// a correctly placed named argument with a same-typed sibling: counted as an instance
+						for j := 0; j < ps.Len(); j++ {
+							if j != i && types.Identical(ps.At(i).Type(), ps.At(j).Type()) {
+								x.CheckAt(f.Name()+":"+chk.ShortName(fo)+"#"+ps.At(i).Name(), q.Rel(a.Pos()), true, "", "")
+								break
+							}
+						}
+					}
+				}
+				return true
+			})
+		}
+	}
+}
+
+// successResult: the trailing result of a success return - the nil error, or the true of a helper that reports success
+// by a flag.
+func successResult(f *chk.Fn, e ast.Expr) bool {
+	return f.IsNilLit(e) || f.IsConstBool(e, true)
+}
+
+// zeroValueVar: a local declared `var x T` without a value that nothing assigns, takes the address of, or selects a
+// field of on the left of an assignment - it is T's zero value wherever it is read.
+func zeroValueVar(f *chk.Fn, e ast.Expr) bool {
+	id, isId := ast.Unparen(e).(*ast.Ident)
+	if !isId {
+		return false
+	}
+	o, isVar := f.ObjOf(id).(*types.Var)
+	if !isVar || o.IsField() || f.Body == nil {
+		return false
+	}
+	declared, touched := false, false
+	ast.Inspect(f.Body, func(n ast.Node) bool {
+		switch v := n.(type) {
+		case *ast.ValueSpec:
+			for _, nm := range v.Names {
+				if f.Info().Defs[nm] == types.Object(o) {
+					declared = len(v.Values) == 0
+				}
+			}
+		case *ast.AssignStmt:
+			for _, l := range v.Lhs {
+				if f.RootObj(l) == types.Object(o) {
+					touched = true
+				}
+			}
+		case *ast.UnaryExpr:
+			if v.Op == token.AND && f.RootObj(v.X) == types.Object(o) {
+				touched = true
+			}
+		case *ast.IncDecStmt:
+			if f.RootObj(v.X) == types.Object(o) {
+				touched = true
+			}
+		case *ast.RangeStmt:
+			if (v.Key != nil && f.RootObj(v.Key) == types.Object(o)) || (v.Value != nil && f.RootObj(v.Value) == types.Object(o)) {
+				touched = true
+			}
+		case *ast.CallExpr:
+			// a method with a pointer receiver called on it
+			if sel, isSel := ast.Unparen(v.Fun).(*ast.SelectorExpr); isSel && f.RootObj(sel.X) == types.Object(o) {
+				if sn := f.Info().Selections[sel]; sn != nil && sn.Kind() == types.MethodVal {
+					if _, ptr := sn.Obj().Type().(*types.Signature).Recv().Type().(*types.Pointer); ptr {
+						touched = true
+					}
+				}
+			}
+		}
+		return true
+	})
+	return declared && !touched
 }
